@@ -129,6 +129,26 @@ def sites_delete():
                 out.append({"file": rel, "line": i + 1, "col": 0, "op": "delete", "new": "", "checks": checks, "text": st[:140]})
     return out
 
+OFFBY = re.compile(r'( [+-] 1)(?![0-9_])')
+
+def sites_offbyone():
+    """every `+ 1` / `- 1` dropped (`+ 0` / `- 0`): the classic off-by-one"""
+    out = []
+    for rel, checks in FILES:
+        p = os.path.join("/repo", rel)
+        if not os.path.exists(p):
+            continue
+        for i, line in enumerate(open(p).read().split("\n")):
+            st = line.strip()
+            if st.startswith("#[cfg(test)]"):
+                break
+            if st.startswith("//") or "assert" in st or "vprintln" in st:
+                continue
+            code = line.split("//")[0]
+            for m in OFFBY.finditer(code):
+                out.append({"file": rel, "line": i + 1, "col": m.start(), "op": m.group(1).strip(), "new": m.group(1).strip()[0] + " 0", "checks": checks, "text": st[:140]})
+    return out
+
 def summary():
     rows = []
     for f in sorted(glob.glob(os.path.join(VERIF, "mutants", "sweep", "*.jsonl"))):
@@ -163,7 +183,7 @@ def main():
             if l.strip():
                 r = json.loads(l); done.add((r["file"], r["line"], r["col"], r["new"]))
     mode = a[a.index("--mode") + 1] if "--mode" in a else "operators"
-    all_sites = sites_delete() if mode == "delete" else sites()
+    all_sites = sites_delete() if mode == "delete" else sites_offbyone() if mode == "offbyone" else sites()
     mine = [s for k, s in enumerate(all_sites) if k % nsh == shard]
     if "--part" in a:
         j, m = map(int, a[a.index("--part") + 1].split("/"))
@@ -190,6 +210,10 @@ def main():
         line = lines[s["line"] - 1]
         if s["op"] == "delete":
             lines[s["line"] - 1] = ""
+        elif s["op"] in ("+ 1", "- 1"):
+            k = s["col"]
+            assert line[k:k + 4] == " " + s["op"], (s, line)
+            lines[s["line"] - 1] = line[:k] + " " + s["new"] + line[k + 4:]
         else:
             k = s["col"]
             op = " " + s["op"] + " "
